@@ -32,11 +32,14 @@ def _tdiv(a, b):
 
 
 class Model:
-    def __init__(self, f, ty="i32", callees=None, consts=None):
-        """`ty`: the integer type the function computes in (used for overflow / wrapping)."""
+    def __init__(self, f, ty="i32", callees=None, consts=None, resolver=None):
+        """`ty`: the integer type the function computes in (used for overflow / wrapping).
+        `resolver(name)`: optional, builds the model of a callee that was not given explicitly (a helper
+        extracted from, or shared with, the function) - None if it cannot be modelled."""
         self.f = f
         self.ty = ty
-        self.callees = callees or {}
+        self.callees = dict(callees or {})
+        self.resolver = resolver
         self.consts = consts or {}          # last path segment of a named (generic) constant -> value
         rets = {i for i, b in enumerate(f.blocks) if f.live(i) and b["t"]["k"] == "return"}
         self.paths = []
@@ -115,6 +118,10 @@ class Model:
         if k == "call":
             n = last_seg(e[1])
             vals = None
+            if e[1] not in self.callees and self.resolver is not None:
+                m_ = self.resolver(e[1])
+                if m_ is not None:
+                    self.callees[e[1]] = m_
             if e[1] in self.callees:
                 return self.callees[e[1]].value([self.ev(x, args) for x in e[2]])
             if n == "wrapping_neg" and len(e[2]) == 1:
@@ -131,6 +138,35 @@ class Model:
                 if not (0 <= v < (1 << 32)):
                     raise Shape("leading_zeros of a non-u32 value")
                 return 32 - v.bit_length()
+            if n == "trailing_zeros" and len(e[2]) == 1:
+                v = self.ev(e[2][0], args)
+                if v == 0:
+                    lo, hi = INT_RANGE[self.ty]
+                    return (hi - lo + 1).bit_length() - 1
+                return (v & -v).bit_length() - 1
+            if n in ("count_ones",) and len(e[2]) == 1:
+                return bin(self.ev(e[2][0], args) & ((1 << 128) - 1)).count("1")
+            if n in ("rem_euclid", "div_euclid") and len(e[2]) == 2:
+                a, b = self.ev(e[2][0], args), self.ev(e[2][1], args)
+                if b == 0:
+                    raise Panic("`%s` divides by zero for %s" % (show(e), args))
+                r = a % abs(b)                          # Python's % with a positive modulus is the Euclidean remainder
+                return r if n == "rem_euclid" else (a - r) // b
+            if n in ("abs", "unsigned_abs", "wrapping_abs") and len(e[2]) == 1:
+                return abs(self.ev(e[2][0], args))
+            if n in ("min", "max") and len(e[2]) == 2:
+                a, b = self.ev(e[2][0], args), self.ev(e[2][1], args)
+                return min(a, b) if n == "min" else max(a, b)
+            if n in ("saturating_sub", "saturating_add") and len(e[2]) == 2:
+                lo, hi = INT_RANGE[self.ty]
+                a, b = self.ev(e[2][0], args), self.ev(e[2][1], args)
+                v = a - b if n == "saturating_sub" else a + b
+                return min(max(v, lo), hi)
+            if n in ("is_power_of_two",) and len(e[2]) == 1:
+                v = self.ev(e[2][0], args)
+                return int(v > 0 and v & (v - 1) == 0)
+            if n in ("from", "into", "as_u32", "as_i32", "as_usize") and len(e[2]) == 1:
+                return self.ev(e[2][0], args)
             raise Shape("call to %s" % n)
         raise Shape("node `%s`" % show(e))
 
